@@ -266,6 +266,9 @@ func (r *Run) N(quick, thorough int) int {
 // only the replayed one). A panic in fn (on the calling goroutine) is recorded
 // as a violation with signature "panic:<stream>" unless panicOK.
 func (r *Run) Cases(stream string, n int, fn func(i int, rng *Rand)) {
+	if only := os.Getenv("VERIF_ONLYSTREAM"); only != "" && only != stream {
+		return // development aid: run a single stream
+	}
 	for i := 0; i < n; i++ {
 		if r.onlyCase >= 0 {
 			if stream != r.onlyStr || i != r.onlyCase {
